@@ -90,7 +90,7 @@ impl Headers {
     /// Return an iterator over the headers in the collection.
     pub fn iter(&self) -> impl Iterator<Item = Header> {
         let mut headers = self.0.clone();
-        headers.sort_unstable_by_key(|h| h.name.clone());
+        headers.sort_by_key(|h| h.name.clone());
         headers.into_iter()
     }
 }
